@@ -5,7 +5,7 @@ import common
 import machine
 
 ID = "C03"
-LEAN_MODULES = ["QProps.C03", "QProps.C03x"]
+LEAN_MODULES = ["QProps.C03", "QProps.C03x", "QProps.C05h"]
 THEOREMS = [
     "MM.fail_restores",
     "MM.fail_restores_cell",
@@ -19,6 +19,7 @@ THEOREMS = [
     "MM.inv_validate",
     "MM.inv_trial",
     "MM.history_restores",
+    "MM.gc_mixed_history",
     "MM.plain_two_deletions_not_restored",
     "MM.reinsert_delete",
     "MM.delete_after_insert",
